@@ -292,7 +292,7 @@
     /// no panic; the list loop consumes at least 4 bytes per iteration.
     /// @props C07 C06
     /// @kind bounded
-    /// @tier thorough
+    /// @tier extended
     /// @bounds input length 0..=12 bytes
     /// @unwind_failure violation
     /// @timeout 2400
